@@ -194,4 +194,23 @@ META = {
         "text": 'Held on the executions produced: native and WASM executors over the same parent agreed on produced block, Changes, statuses, events, skipped ids and error variants, dry runs, and accept/reject (with error variant) of valid and invalid blocks.',
         "note": "Trusted: the WASM blob embedded by the harness build (rebuilt from /repo by the crate's build.rs); error variants compared by name; blocks far below 1024 txs.",
     },
+
+    "C08": {
+        "ready": True,
+        "technique": "runtime monitoring: seeded hostile call histories (sequential + concurrent) against the real Importer over real databases, with fault injection at ports and storage",
+        "text": "Across the observed sequential histories (46k judged calls per quick run, with duplicate/stale/skipped/tampered blocks, port and storage faults, back-pressure timeouts, on in-memory and RocksDB backends) and concurrent races of 2-4 callers, every successful import was for exactly the next height (or genesis on an empty database), found no pre-existing block/seal/transaction, carried no write to the block Merkle columns, left all its data readable and was announced exactly once, in commit order and never before its storage commit began; every failed import left the raw database dump and the height unchanged and announced nothing. Two defects found by this monitor (MemoryStore partial commit; historical ChangesList flatten) were repaired by fix: commits.",
+        "note": "Trusted: harness ports and recording storage wrapper, typed reads through Database<OnChain>, raw column iteration for dumps (restricted to written columns on RocksDB), the height-link model. Only interleavings the scheduler produced are judged; injected storage failure happens before the backend is touched.",
+    },
+    "C26": {
+        "ready": True,
+        "technique": "runtime monitoring: real Import driven over repeated import() rounds against scripted peer/consensus/importer ports; offline oracle over the boundary log",
+        "text": "In 38k generated cases per quick run (batch 1-5, buffer 1-4, up to 50% faulty answers: missing/short/misplaced/forged headers, missing/garbled transactions, errors, delays, importer and consensus failures, cache reuse across failed rounds) every execute_and_commit call was for committed+1, carried the authentic header, seal and transactions, and followed a successful consensus check; every header that failed the check, every short/misplaced header answer, every data:None transaction answer and every wrong first transaction list was followed by the matching peer report, and no peer was reported for a defect it did not produce.",
+        "note": "Trusted: the scripted ports' own log, authenticity = equality with the generated chain. Report obligations are limited to defects the pipeline certainly reaches; SuccessfulBlockImport reports are only counted. Deterministic single-thread schedules with seeded yields.",
+    },
+    "C29": {
+        "ready": True,
+        "technique": "runtime monitoring: production relayer service (QuorumProvider over HTTP JSON-RPC, adaptive pager, retry loop) against a scripted DA node, writes observed at the RelayerDb port over a real Database<Relayer>",
+        "text": "In about 900 cases per quick run (page sizes 1-7 shrinking and growing, max-logs limits, 2-6 finalized-head steps, restarts mid-sync, JSON-RPC/HTTP/garbage/closed-connection failures, storage failures) every insert was for exactly the next DA height, the stored heights were contiguous from the deploy height, each height at or below the synced height held exactly the generated fuel events in log-index order (responses were shuffled, unfinalized blocks carried a bogus extra log), nothing beyond the finalized head was stored, and the announced synced height never decreased nor exceeded what was stored.",
+        "note": "Trusted: harness DA node (filters like a real node), expected events built from generator fields, reads of EventsHistory. DA block 0 is outside the domain when deploy height is 0 (relayer treats it as seen). A relayer that stops progressing is inconclusive (watchdog), not a violation; uses real wall time and localhost sockets.",
+    },
 }
